@@ -37,7 +37,14 @@ def optLine (line : String) : String :=
     let fin := s!"csize={r.st F.csize} interactive={r.st F.interactive} array={r.st F.yytext_is_array}"
     match r.err with
     | some m => s!"err {msgs.getD m "?"}"
-    | none => s!"ok {fin} {ws}"
+    | none =>
+      -- readin(): the m4 symbols the skeleton gets to see
+      let d := defineSymbols.run r.st
+      match d.err with
+      | some m => s!"ok {fin} {ws} readin-err[{msgs.getD m "?"}]"
+      | none =>
+        let syms := symbols.filterMap fun p => if d.st p.2 != 0 then some p.1 else none
+        s!"ok {fin} {ws} syms={",".intercalate syms}"
 
 partial def optLoop (h : IO.FS.Stream) : IO Unit := do
   let line ← h.getLine
